@@ -60,7 +60,7 @@ def main():
             shutil.rmtree(outd, ignore_errors=True); os.makedirs(outd)
             for p in props:
                 e = dict(ENV, QV_OUT=outd)
-                procs.append((p, subprocess.Popen('/verif/bin/qv check %s -tier %s -repo %s' % (p, tier, wt), shell=True, env=e, stdout=subprocess.PIPE, stderr=subprocess.STDOUT)))
+                procs.append((p, subprocess.Popen(os.environ.get('QV_BIN','/verif/bin/qv')+' check %s -tier %s -repo %s' % (p, tier, wt), shell=True, env=e, stdout=subprocess.PIPE, stderr=subprocess.STDOUT)))
             for p, pr in procs:
                 o = pr.communicate()[0].decode(errors='replace')
                 viol = [l for l in o.splitlines() if l.startswith('VIOLATION')]
